@@ -223,3 +223,6 @@ def replay(case):
     config = case.get('config') or PACKAGED
     prob, _ = judge(config, case['codec'], case['hex'], case['data'], default_cfg=case.get('config') is None)
     return prob
+
+
+from props.c07_fuzz import fuzz_shard  # noqa: E402,F401  (task function of the thorough tier)
